@@ -102,11 +102,14 @@ func (p *Parser) deconstructValue(rv reflect.Value, numBuffers *int, undo *undoL
 				return nil, errBinaryCannotBeAPtr
 			}
 
-			buf, err := p.deconstructBinaryValue(rv, original, numBuffers, undo, nil)
+			buf, isBinary, err := p.deconstructBinaryValue(rv, original, numBuffers, undo, nil)
 			if err != nil {
 				return nil, err
 			}
-			buffers = append(buffers, buf)
+			// A []byte that is not a Binary stays in the JSON: there is no attachment for it.
+			if isBinary {
+				buffers = append(buffers, buf)
+			}
 		}
 
 	case reflect.Struct:
@@ -144,10 +147,11 @@ func (p *Parser) deconstructBinaryValue(
 	numBuffers *int,
 	undo *undoLog,
 	customSetter func([]byte) error,
-) (buf []byte, err error) {
+) (buf []byte, isBinary bool, err error) {
 	if rv.CanInterface() {
 		sb, ok := rv.Interface().(socketIOBinary)
 		if ok && sb.SocketIOBinary() {
+			isBinary = true
 			buf = rv.Bytes()
 
 			phold := placeholder{
@@ -158,20 +162,20 @@ func (p *Parser) deconstructBinaryValue(
 
 			pBuf, err := p.json.Marshal(&phold)
 			if err != nil {
-				return nil, err
+				return nil, false, err
 			}
 
 			if customSetter != nil {
 				err = customSetter([]byte(pBuf))
 				if err != nil {
-					return nil, err
+					return nil, false, err
 				}
 			} else if rv.CanSet() {
 				undo.add(func() { rv.SetBytes(buf) })
 				rv.SetBytes([]byte(pBuf))
 			} else {
 				if !original.CanSet() {
-					return nil, &ValueError{err: errNonSettableValue, Value: rv}
+					return nil, false, &ValueError{err: errNonSettableValue, Value: rv}
 				}
 
 				n := reflect.MakeSlice(rv.Type(), len(pBuf), len(pBuf))
@@ -260,11 +264,13 @@ func (p *Parser) deconstructMap(rv reflect.Value, numBuffers *int, undo *undoLog
 				return nil
 			}
 
-			buf, err := p.deconstructBinaryValue(mv, original, numBuffers, undo, set)
+			buf, isBinary, err := p.deconstructBinaryValue(mv, original, numBuffers, undo, set)
 			if err != nil {
 				return nil, err
 			}
-			buffers = append(buffers, buf)
+			if isBinary {
+				buffers = append(buffers, buf)
+			}
 			continue
 		}
 
